@@ -687,11 +687,15 @@ def v_getfield(v, name):
             return Sym(t.field_ty(name), t.world.accessor(t.cname, name)(v.e))
         raise AttributeError(f"{t.cname}.{name}")
     if isinstance(t, UnionTy):
-        # field common to the members that have it: guarded chain (used in contracts; executor forks instead)
         ms = [m for m in t.members() if ClassTy(t.world, m).has_field(name)]
         if not ms:
             raise AttributeError(f"{t.root}.{name}")
         ft = ClassTy(t.world, ms[0]).field_ty(name)
+        if len(ms) == len(t.members()) and len({ClassTy(t.world, m).field_ty(name).name for m in ms}) == 1:
+            # a field every member declares: one function symbol with a defining axiom per constructor
+            # (small terms; the ITE chain over the constructors defeats E-matching)
+            return Sym(ft, union_field_fn(t, name, ft)(v.e))
+        # field of some members only: guarded chain (used in contracts; the executor forks instead)
         e = t.world.accessor(ms[-1], name)(v.e)
         for m in reversed(ms[:-1]):
             e = z3.If(t.world.recognizer(m)(v.e), t.world.accessor(m, name)(v.e), e)
@@ -967,3 +971,23 @@ def mem_has_position(seq_e, elem_sort):
     x = z3.Const(fresh_name("px"), elem_sort)
     p = seq_pos_z3(seq_e, x)
     return z3.ForAll([x], z3.Implies(seq_mem_z3(seq_e, x), z3.And(p >= 0, p < z3.Length(seq_e), seq_e[p] == x)))
+
+
+_UNION_FIELD_FNS = {}
+_UNION_AXIOMS = []
+
+
+def union_field_fn(t, name, ft):
+    key = (t.root, name)
+    if key not in _UNION_FIELD_FNS:
+        f = z3.Function(f"{t.root}__{name}", t.sort, ft.sort)
+        _UNION_FIELD_FNS[key] = f
+        x = z3.Const(f"uf_x_{t.root}_{name}", t.sort)
+        for m in t.members():
+            _UNION_AXIOMS.append(z3.ForAll([x], z3.Implies(t.world.recognizer(m)(x), f(x) == t.world.accessor(m, name)(x)),
+                                           patterns=[f(x)]))
+    return _UNION_FIELD_FNS[key]
+
+
+def union_axioms():
+    return list(_UNION_AXIOMS)
